@@ -359,7 +359,7 @@ pub fn main(a: &Args) {
         for _ in 0..4 {
             let ann = random_meta(&base, &mut rng);
             let spec = SetSpec { ps: Some(rng.chance(0.6)), pse: Some(rng.chance(0.6)), ..SetSpec::lr(rng.below(2) as u8) };
-            let family = if rng.chance(0.35) { rng.range(1, 6) as u8 } else { 0 };
+            let family = if rng.chance(0.35) { rng.range(1, 7) as u8 } else { 0 };
             if family > 0 {
                 rep.count("variants_with_layout_rule", 1);
             }
